@@ -1,1 +1,558 @@
-fn main() { eprintln!("engine not built yet"); std::process::exit(2); }
+//! hx_watch — correspondence harness for watch mode (property C20) and the compile-level half of
+//! C17.  Engines (env `HX_ENGINE`):
+//!
+//! * `watch` (default): request
+//!     `watch.run  <projseed>  <initial tree>  <step> <step> …`
+//!   (see `tree.rs` for trees / steps / THE EVENT TABLE, `pool.rs` for content ids).  The project
+//!   is materialised in an `hx_projgen` session directory and compiled; then for every step the
+//!   edits are made on disk, the given debounced events go through the REAL
+//!   `categorize_and_filter_events` + `update_sources` + `compile` of the SAME `CompilerState`
+//!   (optionally a pico garbage collection in between), and the result is compared with a FRESH
+//!   `CompilerState` compiling a copy of the resulting tree.  Answer, per step:
+//!     `fs:<tree on disk>  ev:<categorised events>  us:ok|us:err:<class>  db:<iso literal map>
+//!      sc:<schema content>  ex:<extension map>  fr:<the same three of the fresh state>|fr:init-error:<class>
+//!      A:same | A:diff:<result|diags|artifacts>`
+//!   and `end` after a fatal `update_sources` error (the real watch loop exits there).
+//! * `failkeeps`: request `failkeeps.run <projseed> <batch|watch>`, see `failkeeps.rs`.
+//!
+//! `hx_watch probe` runs a real debounced inotify watcher over the rows of the event table.
+mod failkeeps;
+mod pool;
+mod probe;
+mod tree;
+
+use hx_common::Rng;
+use hx_projgen::compile::{read_tree, CompileResult, Files, Outcome, Session, State};
+use isograph_compiler::verif::categorize_and_filter_events;
+use isograph_compiler::watch::{ChangedFileKind, SourceEventKind, SourceFileEvent};
+use notify::event::{AccessKind, AccessMode, CreateKind, DataChange, MetadataKind, ModifyKind, RemoveKind, RenameMode};
+use notify::{Event, EventKind};
+use notify_debouncer_full::DebouncedEvent;
+use pico::Database;
+use pool::Pool;
+use std::collections::BTreeMap;
+use std::panic::{catch_unwind, AssertUnwindSafe};
+use std::path::{Path, PathBuf};
+use std::time::Instant;
+use tree::*;
+
+// ------------------------------------------------------------------------------------------ gen
+
+const DIRS: &[&str] = &["src/a", "src/ab", "src/a/b", "src/abc", "src/lib", "src/a/__isograph_bak"];
+const SOURCE_NAMES: &[&str] = &["x.ts", "x.tsx", "y.js", "z.jsx"];
+const OTHER_NAMES: &[&str] = &["x.ts.md", "n.md", "logo.png", "k__isograph.ts", ".ts", "noext", "w.TS"];
+
+fn is_source_name(p: &str) -> bool {
+    let name = p.rsplit('/').next().unwrap();
+    SOURCE_NAMES.contains(&name)
+}
+
+fn dirs_of(t: &Tree) -> Vec<String> {
+    t.iter().filter(|(k, v)| **v == Node::Dir && k.starts_with("src")).map(|(k, _)| k.clone()).collect()
+}
+
+fn files_of(t: &Tree) -> Vec<String> {
+    t.iter().filter(|(k, v)| matches!(v, Node::File(_)) && k.starts_with("src/")).map(|(k, _)| k.clone()).collect()
+}
+
+fn literal_cid(r: &mut Rng, t: &Tree, n_decls: usize) -> String {
+    // prefer a declaration that no source file currently holds
+    let present: Vec<&String> = t.values().filter_map(|v| if let Node::File(c) = v { Some(c) } else { None }).collect();
+    let missing: Vec<String> = (0..n_decls).map(|i| format!("u{i}")).filter(|c| !present.contains(&c)).collect();
+    if !missing.is_empty() && r.chance(2, 3) {
+        return r.pick(&missing).clone();
+    }
+    match r.below(10) {
+        0 => "u100".into(),
+        1 => "u101".into(),
+        2 => "u102".into(),
+        3 => "u103".into(),
+        4 => "b1".into(),
+        _ => format!("u{}", r.below(n_decls.max(1))),
+    }
+}
+
+fn content_for(r: &mut Rng, t: &Tree, p: &str, n_decls: usize) -> String {
+    if is_source_name(p) || r.chance(1, 3) {
+        literal_cid(r, t, n_decls)
+    } else {
+        r.pick(&["u0", "u102", "b0", "u101", "b1"]).to_string()
+    }
+}
+
+fn new_path(r: &mut Rng, t: &Tree) -> String {
+    let ds = dirs_of(t);
+    let d = r.pick(&ds).clone();
+    let name = if r.chance(3, 5) { *r.pick(SOURCE_NAMES) } else { *r.pick(OTHER_NAMES) };
+    format!("{d}/{name}")
+}
+
+fn pick_opt(r: &mut Rng, xs: &[String]) -> Option<String> {
+    if xs.is_empty() {
+        r.next();
+        None
+    } else {
+        Some(r.pick(xs).clone())
+    }
+}
+
+fn gen_edit(r: &mut Rng, t: &Tree, n_decls: usize) -> Option<Edit> {
+    let files = files_of(t);
+    let dirs: Vec<String> = dirs_of(t).into_iter().filter(|d| d != "src").collect();
+    Some(match r.below(22) {
+        0..=3 => {
+            let p = new_path(r, t);
+            let c = content_for(r, t, &p, n_decls);
+            Edit::Write(p, c)
+        }
+        4..=5 => {
+            let p = pick_opt(r, &files)?;
+            let c = content_for(r, t, &p, n_decls);
+            Edit::Write(p, c)
+        }
+        6..=7 => Edit::Rm(pick_opt(r, &files)?),
+        8..=9 => Edit::RmR(pick_opt(r, &dirs)?),
+        10..=11 => {
+            let s = pick_opt(r, &files)?;
+            Edit::Mv(s, new_path(r, t))
+        }
+        12..=13 => Edit::Mv(pick_opt(r, &dirs)?, r.pick(DIRS).to_string()),
+        14 => Edit::Mkdir(r.pick(DIRS).to_string()),
+        15 => {
+            if r.chance(1, 2) {
+                Edit::MvOut(pick_opt(r, &files)?)
+            } else {
+                Edit::MvOut(pick_opt(r, &dirs)?)
+            }
+        }
+        16 => {
+            let p = new_path(r, t);
+            let c = content_for(r, t, &p, n_decls);
+            Edit::MvInFile(p, c)
+        }
+        17 => {
+            let n = r.range(1, 3);
+            let cs = (0..n).map(|_| literal_cid(r, t, n_decls)).collect();
+            Edit::MvInDir(r.pick(DIRS).to_string(), cs)
+        }
+        18..=19 => Edit::Write(pool::SCHEMA.into(), r.pick(&["u200", "u201", "u201", "u202"]).to_string()),
+        20 => Edit::Write(pool::SCHEMA_EXT.into(), r.pick(&["u300", "u301"]).to_string()),
+        _ => {
+            let p = if !files.is_empty() && r.chance(1, 2) { r.pick(&files).clone() } else { new_path(r, t) };
+            Edit::Write(p, r.pick(&["b0", "b1"]).to_string())
+        }
+    })
+}
+
+fn gen_initial(r: &mut Rng, n_decls: usize) -> Tree {
+    let mut t = Tree::new();
+    t.insert("src".into(), Node::Dir);
+    t.insert(pool::SCHEMA.into(), Node::File("u200".into()));
+    t.insert(pool::SCHEMA_EXT.into(), Node::File("u300".into()));
+    for d in DIRS {
+        if r.chance(1, 2) && parent(d).map_or(true, |p| is_dir(&t, p)) {
+            t.insert(d.to_string(), Node::Dir);
+        }
+    }
+    for i in 0..n_decls {
+        for _ in 0..20 {
+            let ds = dirs_of(&t);
+            let p = format!("{}/{}", r.pick(&ds), r.pick(SOURCE_NAMES));
+            if !t.contains_key(&p) && !p.contains("__isograph") {
+                t.insert(p, Node::File(format!("u{i}")));
+                break;
+            }
+        }
+    }
+    for _ in 0..r.below(4) {
+        let ds = dirs_of(&t);
+        let d = r.pick(&ds).clone();
+        let (name, c) = *r.pick(&[("n.md", "u0"), ("logo.png", "b0"), ("k__isograph.ts", "u102"), ("x.ts.md", "u102"), ("noext", "u101")]);
+        let p = format!("{d}/{name}");
+        if !t.contains_key(&p) {
+            t.insert(p, Node::File(c.to_string()));
+        }
+    }
+    if is_dir(&t, "src/a/__isograph_bak") && r.chance(1, 2) {
+        t.insert("src/a/__isograph_bak/x.ts".into(), Node::File("u102".into()));
+    }
+    t
+}
+
+fn gen_case(r: &mut Rng, _i: u64) -> Vec<String> {
+    if std::env::var("HX_ENGINE").as_deref() == Ok("failkeeps") {
+        return failkeeps::gen_case(r);
+    }
+    let projseed = r.below(48) as u64 + 1;
+    let pool = Pool::new(projseed);
+    let mut t = gen_initial(r, pool.n_decls);
+    let mut line = format!("watch.run\t{projseed}\t{}", enc_tree(&t));
+    for _ in 0..r.range(1, 6) {
+        let n_edits = if r.chance(7, 10) { 1 } else { r.range(2, 3) };
+        let mut edits: Vec<Edit> = vec![];
+        let mut events: Vec<Ev> = vec![];
+        let mut tries = 0;
+        while edits.len() < n_edits && tries < 40 {
+            tries += 1;
+            let Some(e) = gen_edit(r, &t, pool.n_decls) else { continue };
+            if !applicable(&t, &e) {
+                continue;
+            }
+            let paths = edit_paths(&e);
+            if edits.iter().any(|o| edit_paths(o).iter().any(|a| paths.iter().any(|b| related(a, b)))) {
+                continue;
+            }
+            let style = if r.chance(1, 5) { 1 } else { 0 };
+            events.extend(events_of(&t, &e, style));
+            if r.chance(1, 12) {
+                events.push(Ev::Metadata(paths[0].clone()));
+            }
+            apply(&mut t, &e);
+            edits.push(e);
+        }
+        line.push('\t');
+        line.push_str(&enc_step(&Step { edits, events, gc: r.chance(1, 3) }));
+    }
+    vec![line]
+}
+
+fn edit_paths(e: &Edit) -> Vec<String> {
+    match e {
+        Edit::Write(p, _) | Edit::Mkdir(p) | Edit::Rm(p) | Edit::RmR(p) | Edit::MvOut(p) | Edit::MvInFile(p, _) | Edit::MvInDir(p, _) => vec![p.clone()],
+        Edit::Mv(s, d) => vec![s.clone(), d.clone()],
+    }
+}
+
+// ------------------------------------------------------------------------------------------ run
+
+fn to_notify(root: &Path, e: &Ev) -> DebouncedEvent {
+    let abs = |p: &String| root.join(p);
+    let (kind, paths): (EventKind, Vec<PathBuf>) = match e {
+        Ev::CreateFile(p) => (EventKind::Create(CreateKind::File), vec![abs(p)]),
+        Ev::CreateFolder(p) => (EventKind::Create(CreateKind::Folder), vec![abs(p)]),
+        Ev::Data(p) => (EventKind::Modify(ModifyKind::Data(DataChange::Any)), vec![abs(p)]),
+        Ev::RemoveFile(p) => (EventKind::Remove(RemoveKind::File), vec![abs(p)]),
+        Ev::RemoveFolder(p) => (EventKind::Remove(RemoveKind::Folder), vec![abs(p)]),
+        Ev::Both(s, d) => (EventKind::Modify(ModifyKind::Name(RenameMode::Both)), vec![abs(s), abs(d)]),
+        Ev::From(p) => (EventKind::Modify(ModifyKind::Name(RenameMode::From)), vec![abs(p)]),
+        Ev::To(p) => (EventKind::Modify(ModifyKind::Name(RenameMode::To)), vec![abs(p)]),
+        Ev::Any(p) => (EventKind::Modify(ModifyKind::Name(RenameMode::Any)), vec![abs(p)]),
+        Ev::Access(p) => (EventKind::Access(AccessKind::Close(AccessMode::Write)), vec![abs(p)]),
+        Ev::Metadata(p) => (EventKind::Modify(ModifyKind::Metadata(MetadataKind::Any)), vec![abs(p)]),
+    };
+    let mut ev = Event::new(kind);
+    for p in paths {
+        ev = ev.add_path(p);
+    }
+    DebouncedEvent::new(ev, Instant::now())
+}
+
+fn rel(root: &Path, p: &Path) -> String {
+    p.strip_prefix(root).map(|x| x.to_string_lossy().to_string()).unwrap_or_else(|_| format!("!{}", p.display()))
+}
+
+fn enc_categorised(root: &Path, evs: &Option<Vec<SourceFileEvent>>) -> String {
+    let Some(evs) = evs else { return "ev:none".into() };
+    let items: Vec<String> = evs
+        .iter()
+        .map(|(k, c)| {
+            let c = match c {
+                ChangedFileKind::Config => 'C',
+                ChangedFileKind::Schema => 'S',
+                ChangedFileKind::SchemaExtension => 'X',
+                ChangedFileKind::JavaScriptSourceFile => 'F',
+                ChangedFileKind::JavaScriptSourceFolder => 'D',
+            };
+            match k {
+                SourceEventKind::CreateOrModify(p) => format!("{c}+:{}", rel(root, p)),
+                SourceEventKind::Remove(p) => format!("{c}-:{}", rel(root, p)),
+                SourceEventKind::Rename((s, d)) => format!("{c}>:{}:{}", rel(root, s), rel(root, d)),
+            }
+        })
+        .collect();
+    format!("ev:{}", items.join(";"))
+}
+
+fn enc_map(m: &BTreeMap<String, String>) -> String {
+    if m.is_empty() {
+        "-".into()
+    } else {
+        m.iter().map(|(k, v)| format!("{k}={v}")).collect::<Vec<_>>().join(",")
+    }
+}
+
+/// `<iso literal map>  <schema content>  <extension map>` of a live state, contents as ids.
+fn dump_state(state: &State, pool: &Pool) -> (String, String, String) {
+    let db = &state.db;
+    let mut iso = BTreeMap::new();
+    let iso_view = db.get_iso_literal_map();
+    for (path, id) in &iso_view.untracked().0 {
+        iso.insert(path.to_string(), pool.cid(db.get(*id).content.as_bytes()));
+    }
+    let std_view = db.get_standard_sources();
+    let std_sources = std_view.untracked();
+    let sc = catch_unwind(AssertUnwindSafe(|| pool.cid(db.get(std_sources.schema_source_id).content.as_bytes()))).unwrap_or_else(|_| "none".into());
+    let mut ex = BTreeMap::new();
+    for (path, id) in &std_sources.schema_extension_sources {
+        ex.insert(path.to_string(), pool.cid(db.get(*id).content.as_bytes()));
+    }
+    (enc_map(&iso), sc, enc_map(&ex))
+}
+
+fn error_class(msg: &str) -> &'static str {
+    if msg.contains("convert file to utf8") || msg.contains("convert to string") {
+        "utf8"
+    } else if msg.contains("traverse directory") {
+        "traverse"
+    } else if msg.contains("read file") {
+        "read"
+    } else if msg.contains("canonicalize") {
+        "canonicalize"
+    } else if msg.contains("Schema not found") {
+        "schema-not-found"
+    } else if msg.contains("is not a file") {
+        "not-a-file"
+    } else if msg.starts_with("panic") {
+        "panic"
+    } else {
+        "other"
+    }
+}
+
+fn canon_result(o: &Outcome) -> String {
+    match &o.result {
+        CompileResult::Ok(s) => format!("ok:{}:{}:{}", s.client_field_count, s.client_pointer_count, s.entrypoint_count),
+        CompileResult::Panic(m) => format!("panic:{m}"),
+        CompileResult::Diagnostics(ds) => {
+            let mut v: Vec<String> = ds.iter().map(|d| format!("{}|{}|{:?}", d.kind, d.message, d.location)).collect();
+            v.sort();
+            format!("diag:{}", v.join("\n"))
+        }
+    }
+}
+
+fn compare(watch: &Outcome, fresh: &Outcome) -> String {
+    let (a, b) = (canon_result(watch), canon_result(fresh));
+    if a != b {
+        if std::env::var_os("HX_WATCH_DEBUG").is_some() {
+            eprintln!("--- watch:\n{a}\n--- fresh:\n{b}\n");
+        }
+        if a.split(':').next() != b.split(':').next() {
+            return format!("A:diff:result:{}-vs-{}", a.split(':').next().unwrap(), b.split(':').next().unwrap());
+        }
+        return "A:diff:diags".into();
+    }
+    if watch.result.is_ok() && watch.artifacts != fresh.artifacts {
+        return "A:diff:artifacts".into();
+    }
+    "A:same".into()
+}
+
+const OUTSIDE: &str = "outside";
+
+fn real_edit(root: &Path, pool: &Pool, e: &Edit, counter: &mut usize) -> std::io::Result<()> {
+    use std::fs;
+    let outside = root.join(OUTSIDE);
+    fs::create_dir_all(&outside)?;
+    *counter += 1;
+    let bytes = |c: &String| pool.bytes(c).map(|b| b.to_vec()).ok_or_else(|| std::io::Error::new(std::io::ErrorKind::Other, format!("unknown content id {c}")));
+    match e {
+        Edit::Write(p, c) => fs::write(root.join(p), bytes(c)?),
+        Edit::Mkdir(p) => fs::create_dir(root.join(p)),
+        Edit::Rm(p) => fs::remove_file(root.join(p)),
+        Edit::RmR(p) => fs::remove_dir_all(root.join(p)),
+        Edit::Mv(s, d) => fs::rename(root.join(s), root.join(d)),
+        Edit::MvOut(p) => fs::rename(root.join(p), outside.join(format!("out{counter}"))),
+        Edit::MvInFile(p, c) => {
+            let tmp = outside.join(format!("in{counter}"));
+            fs::write(&tmp, bytes(c)?)?;
+            fs::rename(tmp, root.join(p))
+        }
+        Edit::MvInDir(p, cs) => {
+            let tmp = outside.join(format!("in{counter}"));
+            fs::create_dir(&tmp)?;
+            for (i, c) in cs.iter().enumerate() {
+                fs::write(tmp.join(MOVED_IN_NAMES[i % MOVED_IN_NAMES.len()]), bytes(c)?)?;
+            }
+            fs::rename(tmp, root.join(p))
+        }
+    }
+}
+
+/// The project directory as a tree of content ids (config, `outside` and the artifact directory
+/// left out).
+fn disk_tree(root: &Path, pool: &Pool) -> Tree {
+    fn go(root: &Path, dir: &Path, pool: &Pool, out: &mut Tree) {
+        let Ok(rd) = std::fs::read_dir(dir) else { return };
+        for e in rd.flatten() {
+            let p = e.path();
+            let r = rel(root, &p);
+            if r == pool::CONFIG || r == OUTSIDE || r == "src/__isograph" {
+                continue;
+            }
+            if p.is_dir() {
+                out.insert(r, Node::Dir);
+                go(root, &p, pool, out);
+            } else if let Ok(b) = std::fs::read(&p) {
+                out.insert(r, Node::File(pool.cid(&b)));
+            }
+        }
+    }
+    let mut t = Tree::new();
+    go(root, root, pool, &mut t);
+    t
+}
+
+fn source_files_on_disk(root: &Path) -> Files {
+    let mut files = Files::new();
+    for (k, v) in read_tree(root) {
+        if k.starts_with("src/__isograph/") || k.starts_with("outside/") {
+            continue;
+        }
+        files.insert(PathBuf::from(k), v);
+    }
+    files
+}
+
+fn fresh_compile(root: &Path, pool: &Pool) -> (Outcome, String) {
+    let mut fresh = Session::new(&source_files_on_disk(root));
+    let out = fresh.compile();
+    let dump = match fresh.state() {
+        Some(s) => {
+            let (iso, sc, ex) = dump_state(s, pool);
+            format!("fr:{iso}|{sc}|{ex}")
+        }
+        None => match &out.result {
+            CompileResult::Diagnostics(ds) => format!("fr:init-error:{}", error_class(&ds[0].message)),
+            _ => "fr:init-error:panic".into(),
+        },
+    };
+    (out, dump)
+}
+
+fn run_watch(f: &[&str]) -> String {
+    if f.len() < 3 {
+        return "malformed".into();
+    }
+    let Ok(projseed) = f[1].parse::<u64>() else { return "malformed".into() };
+    let Some(mut t) = dec_tree(f[2]) else { return "malformed".into() };
+    let Some(steps) = f[3..].iter().map(|s| dec_step(s)).collect::<Option<Vec<_>>>() else { return "malformed".into() };
+    if std::env::var_os("HX_WATCH_DEBUG").is_some() {
+        std::panic::set_hook(Box::new(|i| eprintln!("PANIC {i}\n{}", std::backtrace::Backtrace::force_capture())));
+    }
+    let pool = Pool::new(projseed);
+    let mut files = Files::new();
+    files.insert(PathBuf::from(pool::CONFIG), pool.config_bytes());
+    for (k, v) in &t {
+        if let Node::File(c) = v {
+            let Some(b) = pool.bytes(c) else { return "malformed".into() };
+            files.insert(PathBuf::from(k), b.to_vec());
+        }
+    }
+    let mut session = Session::new(&files);
+    let root = session.dir().to_path_buf();
+    for (k, v) in &t {
+        if *v == Node::Dir {
+            std::fs::create_dir_all(root.join(k)).expect("mkdir");
+        }
+    }
+    let mut out: Vec<String> = vec![];
+    // step 0: the initial batch compile
+    let mut last = session.compile();
+    out.push(format!("fs:{}", enc_tree(&disk_tree(&root, &pool))));
+    match session.state() {
+        None => {
+            let class = match &last.result {
+                CompileResult::Diagnostics(ds) => error_class(&ds[0].message),
+                _ => "panic",
+            };
+            out.push(format!("init-error:{class}"));
+            return out.join("\t");
+        }
+        Some(s) => {
+            let (iso, sc, ex) = dump_state(s, &pool);
+            out.push(format!("db:{iso}|{sc}|{ex}"));
+        }
+    }
+    let mut counter = 0usize;
+    for step in &steps {
+        for e in &step.edits {
+            if !applicable(&t, e) {
+                out.push("inapplicable".into());
+                return out.join("\t");
+            }
+            if let Err(err) = real_edit(&root, &pool, e, &mut counter) {
+                out.push(format!("edit-failed:{}", err.kind()));
+                return out.join("\t");
+            }
+            apply(&mut t, e);
+        }
+        out.push(format!("fs:{}", enc_tree(&disk_tree(&root, &pool))));
+        let raw: Vec<DebouncedEvent> = step.events.iter().map(|e| to_notify(&root, e)).collect();
+        let config = session.state().unwrap().db.get_isograph_config().clone();
+        let categorised = match catch_unwind(AssertUnwindSafe(|| categorize_and_filter_events(&raw, &config))) {
+            Ok(c) => c,
+            Err(_) => {
+                out.push("ev:panic".into());
+                out.push("end".into());
+                return out.join("\t");
+            }
+        };
+        out.push(enc_categorised(&root, &categorised));
+        if let Some(events) = &categorised {
+            match session.update_sources(events) {
+                Ok(()) => out.push("us:ok".into()),
+                Err(msgs) => {
+                    let mut cs: Vec<&str> = msgs.iter().map(|m| error_class(m)).collect();
+                    cs.sort();
+                    cs.dedup();
+                    out.push(format!("us:err:{}", cs.join("+")));
+                    out.push("end".into());
+                    return out.join("\t");
+                }
+            }
+            if step.gc {
+                if let Some(s) = session.state_mut() {
+                    s.db.run_garbage_collection();
+                }
+            }
+            last = session.compile();
+            if step.gc {
+                if let Some(s) = session.state_mut() {
+                    s.db.run_garbage_collection();
+                }
+            }
+        } else {
+            out.push("us:none".into());
+        }
+        let Some(state) = session.state() else {
+            if std::env::var_os("HX_WATCH_DEBUG").is_some() {
+                eprintln!("--- state lost: {:?}", last.result);
+            }
+            out.push("state-lost".into());
+            out.push("end".into());
+            return out.join("\t");
+        };
+        let (iso, sc, ex) = dump_state(state, &pool);
+        out.push(format!("db:{iso}|{sc}|{ex}"));
+        let (fresh_out, fresh_dump) = fresh_compile(&root, &pool);
+        out.push(fresh_dump);
+        out.push(compare(&last, &fresh_out));
+    }
+    out.join("\t")
+}
+
+fn main() {
+    if std::env::args().nth(1).as_deref() == Some("probe") {
+        probe::main();
+        return;
+    }
+    hx_common::main_loop(&gen_case, &mut |f: &[&str]| {
+        let r = catch_unwind(AssertUnwindSafe(|| match f[0] {
+            "watch.run" => run_watch(f),
+            "failkeeps.run" => failkeeps::run(f),
+            _ => "unknown-op".to_string(),
+        }));
+        r.unwrap_or_else(|_| "panic".to_string())
+    });
+}
